@@ -32,6 +32,11 @@ func (f FileSpec) descriptors(caseDir string) (*pluginpb.CodeGeneratorRequest, s
 	bytesField := func() []*descriptorpb.FieldDescriptorProto {
 		return []*descriptorpb.FieldDescriptorProto{{Name: sp("v"), Number: proto.Int32(1), Type: descriptorpb.FieldDescriptorProto_TYPE_BYTES.Enum(), Label: descriptorpb.FieldDescriptorProto_LABEL_OPTIONAL.Enum(), JsonName: sp("v")}}
 	}
+	// the local request message also has a proto3 string field: a value that is not valid UTF-8 makes every
+	// protobuf encoder refuse the message (a request that cannot be marshalled)
+	inFields := func() []*descriptorpb.FieldDescriptorProto {
+		return append(bytesField(), &descriptorpb.FieldDescriptorProto{Name: sp("s"), Number: proto.Int32(2), Type: descriptorpb.FieldDescriptorProto_TYPE_STRING.Enum(), Label: descriptorpb.FieldDescriptorProto_LABEL_OPTIONAL.Enum(), JsonName: sp("s")})
+	}
 	other := &descriptorpb.FileDescriptorProto{
 		Name: sp(caseDir + "/other.proto"), Package: sp("verif.other"), Syntax: sp("proto3"),
 		Options:     &descriptorpb.FileOptions{GoPackage: sp("verifgen/cases/" + caseDir + "/" + f.otherPkg())},
@@ -42,7 +47,7 @@ func (f FileSpec) descriptors(caseDir string) (*pluginpb.CodeGeneratorRequest, s
 		Name: sp(caseDir + "/svc.proto"), Package: sp(f.Package), Syntax: sp("proto3"),
 		Dependency:  []string{caseDir + "/other.proto", "google/protobuf/wrappers.proto"},
 		Options:     &descriptorpb.FileOptions{GoPackage: sp(goPkg)},
-		MessageType: []*descriptorpb.DescriptorProto{{Name: sp("In"), Field: bytesField()}, {Name: sp("Out"), Field: bytesField()}},
+		MessageType: []*descriptorpb.DescriptorProto{{Name: sp("In"), Field: inFields()}, {Name: sp("Out"), Field: bytesField()}},
 	}
 	typeName := func(i int) string {
 		switch f.kind(i) {
